@@ -2,16 +2,17 @@ package main
 
 // harnessSpec names one dual-mode harness function (in /verif/harness/<pkg>) and how to run it.
 type harnessSpec struct {
-	Pkg, Fn      string
-	Loop         int // loop unwinding bound (every loop; exceeding it is reported, never ignored)
-	LoopThorough int
-	Validate     int // feasible paths to validate natively in the quick tier (x4 in thorough)
-	MustReach    []string
-	ThoroughOnly bool
-	QuickOnly    bool
-	Panics       bool   // a reproduced panic in library code is a violation of this property (crash-freedom / "is refused with an error" clauses)
-	CrossSolver  string // thorough tier: re-run the whole harness on this solver and compare verdicts
-	Env          map[string]string
+	Pkg, Fn                      string
+	Loop                         int // loop unwinding bound (every loop; exceeding it is reported, never ignored)
+	LoopThorough                 int
+	Validate                     int // feasible paths to validate natively in the quick tier (x4 in thorough)
+	MustReach                    []string
+	ThoroughOnly                 bool
+	QuickOnly                    bool
+	ShardBits, ShardBitsThorough int    // explore the path tree in 2^n processes (static split on the first n forks)
+	Panics                       bool   // a reproduced panic in library code is a violation of this property (crash-freedom / "is refused with an error" clauses)
+	CrossSolver                  string // thorough tier: re-run the whole harness on this solver and compare verdicts
+	Env                          map[string]string
 }
 
 type propSpec struct {
@@ -42,7 +43,8 @@ var props = map[string]propSpec{
 		{Pkg: "registration", Fn: "VerifC01Rewrapped", Validate: 8, MustReach: []string{"issued", "not-issued"}, Panics: true},
 	}, Assumptions: with(), Explanation: "FetchNodeCredentials executed from SSA against a marshal-based storage with symbolic records and a well-signed symbolic request"},
 	"C02": {Harnesses: []harnessSpec{
-		{Pkg: "protocol", Fn: "VerifC02Auth", Validate: 8, MustReach: []string{"authenticated", "rejected"}},
+		{Pkg: "protocol", Fn: "VerifC02Auth", Validate: 16, MustReach: []string{"authenticated", "rejected"}, Panics: true, ShardBits: 4},
+		{Pkg: "protocol", Fn: "VerifC02Fetch", Validate: 8, MustReach: []string{"accept-returned"}, Panics: true},
 	}, Assumptions: with("TLS handshake contract model (DESIGN 3.5); native twin is a real crypto/tls client over net.Pipe"), Explanation: "real InterceptingListener.Accept under the handshake contract model with an adversarial peer"},
 	"C03": {Harnesses: []harnessSpec{
 		{Pkg: "registration", Fn: "VerifC03Validate", Validate: 16, MustReach: []string{"accepted", "rejected"}, Panics: true},
@@ -53,9 +55,13 @@ var props = map[string]propSpec{
 		{Pkg: "rotation", Fn: "VerifC04Certificates", Validate: 4},
 	}, Assumptions: with("clock assumption: the honest flow finishes within 100 ms of symbolic time"), Explanation: "honest enrollment flow from SSA, certificates inspected"},
 	"C05": {Harnesses: []harnessSpec{
-		{Pkg: "tls", Fn: "VerifC05KeyIdPath", Validate: 8, MustReach: []string{"gate-passed", "rejected"}},
-		{Pkg: "tls", Fn: "VerifC05NodeIdPath", Validate: 8, MustReach: []string{"gate-passed"}},
-	}, Assumptions: with(), Explanation: "GenerateServerCertificates verification gate over both lookup paths"},
+		{Pkg: "tls", Fn: "VerifC05KeyIdPath1", Validate: 8, MustReach: []string{"gate-passed", "rejected"}, Panics: true},
+		{Pkg: "tls", Fn: "VerifC05KeyIdPath2", Validate: 8, MustReach: []string{"gate-passed", "rejected"}, Panics: true},
+		{Pkg: "tls", Fn: "VerifC05NodeIdPath0", Validate: 4, MustReach: []string{"rejected"}, Panics: true},
+		{Pkg: "tls", Fn: "VerifC05NodeIdPath1", Validate: 8, MustReach: []string{"gate-passed", "rejected"}, Panics: true},
+		{Pkg: "tls", Fn: "VerifC05NodeIdPath2", Validate: 8, MustReach: []string{"gate-passed", "rejected"}, Panics: true},
+		{Pkg: "tls", Fn: "VerifC05NodeIdPath3", Validate: 8, MustReach: []string{"gate-passed", "rejected"}, Panics: true, ThoroughOnly: true},
+	}, Assumptions: with("the certificate-minting tail after the gate is cut (storage returns a sentinel when the roots are loaded); it runs in C02/C04"), Explanation: "GenerateServerCertificates verification gate over both lookup paths, 0..3 records in any order and grouping, nonce and client-state signatures chosen independently"},
 	"C06": {Harnesses: []harnessSpec{
 		{Pkg: "registration", Fn: "VerifC06SingleUse", Validate: 4},
 	}, Assumptions: with(), Explanation: "activation token create/use/re-use from SSA"},
